@@ -8,6 +8,7 @@ use crate::{
     runner::{finish_check, replay_plan, run_batch, threads, BatchCfg, BatchOut, CheckOut, Cx, Scenario, Tier},
     scen::offer::{Mode as OfferMode, Offer},
     scen::actor::ActorScen,
+    scen::coord::Coord,
     scen::crash::Crash,
     scen::docs::{Docs, Mode as DocsMode},
     scen::events::Events,
@@ -15,6 +16,7 @@ use crate::{
     scen::pair::{Mode as PairMode, Pair},
     scen::query::QueryScen,
     scen::session::Session,
+    scen::swarm::Swarm,
     scen::wire::{Decoders, PureMode, Wire},
 };
 
@@ -40,6 +42,7 @@ pub fn run_property(prop: &str, tier: Tier, seed: u64, scale: f64) -> i32 {
         "C02" => vec![batch(&Offer { mode: OfferMode::State }, tier, seed, 60_000, 1_500_000, scale)],
         "C01" => vec![batch(&Pair { mode: PairMode::Converge }, tier, seed, 40_000, 1_000_000, scale)],
         "C03" => vec![batch(&Forge, tier, seed, 40_000, 1_000_000, scale)],
+        "C04" => vec![batch(&Swarm, tier, seed, 6_000, 150_000, scale)],
         "C05" => vec![batch(&QueryScen, tier, seed, 40_000, 1_000_000, scale)],
         "C06" => {
             level = "fault_enumeration";
@@ -53,6 +56,7 @@ pub fn run_property(prop: &str, tier: Tier, seed: u64, scale: f64) -> i32 {
             batch(&Decoders { mode: PureMode::Codecs }, tier, seed, 40_000, 1_000_000, scale),
         ],
         "C10" => vec![batch(&Session, tier, seed, 30_000, 800_000, scale)],
+        "C11" => vec![batch(&Coord, tier, seed, 4_000, 100_000, scale)],
         "C12" => vec![batch(&Events, tier, seed, 30_000, 800_000, scale)],
         "C14" => vec![batch(&ActorScen, tier, seed, 30_000, 800_000, scale)],
         "C15" => vec![
@@ -89,9 +93,11 @@ fn replay_dispatch(prop: &str, scenario: &str, plan: Value) -> Result<(Option<cr
         (_, "decoders-pure") => replay_plan(&Decoders { mode: PureMode::Codecs }, plan),
         (_, "heads-encoding-pure") => replay_plan(&Decoders { mode: PureMode::Heads }, plan),
         (_, "filters-pure") => replay_plan(&Decoders { mode: PureMode::Filters }, plan),
+        (_, "swarm") => replay_plan(&Swarm, plan),
         (_, "session") => replay_plan(&Session, plan),
         (_, "query") => replay_plan(&QueryScen, plan),
         (_, "actor") => replay_plan(&ActorScen, plan),
+        (_, "coord") => replay_plan(&Coord, plan),
         (_, "crash") => replay_plan(&Crash, plan),
         (_, "docs-cap") => replay_plan(&Docs { mode: DocsMode::Cap }, plan),
         (_, "docs-policy") => replay_plan(&Docs { mode: DocsMode::Policy }, plan),
@@ -194,11 +200,13 @@ pub fn determinism(prop: Option<&str>, seeds: u64) -> i32 {
     if all || p == "C02" { twice(&Offer { mode: OfferMode::State }, seeds, &mut bad); }
     if all || p == "C13" { twice(&Offer { mode: OfferMode::Heads }, seeds, &mut bad); }
     if all || p == "C03" { twice(&Forge, seeds, &mut bad); }
+    if all || p == "C04" { twice(&Swarm, seeds, &mut bad); }
     if all || p == "C05" { twice(&QueryScen, seeds, &mut bad); }
     if all || p == "C06" { twice(&Crash, seeds.min(60), &mut bad); }
     if all || p == "C07" { twice(&Docs { mode: DocsMode::Cap }, seeds, &mut bad); }
     if all || p == "C09" { twice(&Wire, seeds, &mut bad); twice(&Decoders { mode: PureMode::Codecs }, seeds, &mut bad); }
     if all || p == "C10" { twice(&Session, seeds, &mut bad); }
+    if all || p == "C11" { twice(&Coord, seeds.min(100), &mut bad); }
     if all || p == "C12" { twice(&Events, seeds, &mut bad); }
     if all || p == "C14" { twice(&ActorScen, seeds, &mut bad); }
     if all || p == "C15" { twice(&Docs { mode: DocsMode::Policy }, seeds, &mut bad); }
